@@ -5,8 +5,9 @@ import (
 	"encoding/json"
 	"errors"
 	"fmt"
-	"io"
 	"hash/fnv"
+	"io"
+	"strings"
 
 	"google.golang.org/grpc/metadata"
 
@@ -38,6 +39,22 @@ func init() {
 func (p propC13) Gen(r *simrt.Rand, idx int, tier string) any {
 	if idx%25 == 24 {
 		c := UnknownTxCase{World: genWorldSpec(r), TxID: fmt.Sprintf("%08x-0000-4000-8000-%012x", r.Uint64()&0xffffffff, r.Uint64()&0xffffffffffff)}
+		switch r.Intn(8) {
+		case 0:
+			// not every client names its transactions the way this server does: ids that are not
+			// (canonical) UUIDs are unknown transactions like any other
+			c.TxID = fmt.Sprintf("tx-%06d", r.Intn(1000000))
+		case 1:
+			c.TxID = fmt.Sprintf("%d", r.Intn(100000))
+		case 2:
+			c.TxID = c.TxID[:len(c.TxID)-1-r.Intn(10)]
+		case 3:
+			c.TxID = strings.ToUpper(c.TxID)
+		case 4:
+			c.TxID = "{" + c.TxID + "}"
+		case 5:
+			c.TxID = c.TxID + "x"
+		}
 		c.Sched = SchedSpec{Seed: r.Uint64(), Strategy: "seqbg", MaxSteps: 2_000_000}
 		all := []string{"get", "keys", "commit", "rollback", "del", "set"}
 		for _, i := range r.Perm(len(all)) {
